@@ -412,6 +412,9 @@ class Replayer:
             return {}
         if tol[0] == "none":
             return {"tolerance": None}
+        if tol[0] == "e":
+            q = Fraction(1, 10 ** tol[1])
+            return {"tolerance": q if self.mode.exact else float(q)}
         q = Fraction(tol[1], tol[2])
         return {"tolerance": q if self.mode.exact else float(q)}
 
@@ -435,7 +438,7 @@ class Replayer:
 
     def do_CvClean(self, live, a):
         c = live[a["obj"]]
-        {"knot": c.knot_clean, "degree": c.degree_clean, "all": c.clean}[a["which"]]()
+        {"knot": c.knot_clean, "degree": c.degree_clean, "all": c.clean}[a["which"]](**self.tol_arg(a.get("tol", ["default"])))
 
     def do_CvJoin(self, live, a):
         A = live[a["obj"]]
